@@ -5,6 +5,7 @@ import (
 	"fmt"
 	"github.com/fabiolb/fabio/transport"
 	"log"
+	"math"
 	"net/url"
 	"reflect"
 	"sort"
@@ -219,11 +220,14 @@ const maxSlots = 1e4 // 10000
 func (r *Route) weighTargets() {
 	// how big is the fixed weighted traffic?
 	var nFixed int
-	var sumFixed float64
+	var sumFixed, maxFixed float64
 	for _, t := range r.Targets {
 		if t.FixedWeight > 0 {
 			nFixed++
 			sumFixed += t.FixedWeight
+			if t.FixedWeight > maxFixed {
+				maxFixed = t.FixedWeight
+			}
 		}
 	}
 
@@ -239,9 +243,21 @@ func (r *Route) weighTargets() {
 	}
 
 	// normalize fixed weights up (sumFixed < 1) or down (sumFixed > 1)
-	scale := 1.0
-	if sumFixed > 1 || (nFixed == len(r.Targets) && sumFixed < 1) {
-		scale = 1 / sumFixed
+	//
+	// The weights are divided by their sum instead of multiplied with its
+	// inverse since the inverse of a very small sum is not finite. A sum
+	// which is not finite itself is computed from the weights relative to
+	// the largest one.
+	normalize := sumFixed > 1 || (nFixed == len(r.Targets) && sumFixed < 1)
+	fixed := func(t *Target) float64 { return t.FixedWeight }
+	if math.IsInf(sumFixed, 1) {
+		fixed = func(t *Target) float64 { return t.FixedWeight / maxFixed }
+		sumFixed = 0
+		for _, t := range r.Targets {
+			if t.FixedWeight > 0 {
+				sumFixed += fixed(t)
+			}
+		}
 	}
 
 	// compute the weight for the targets with dynamic weights
@@ -253,7 +269,10 @@ func (r *Route) weighTargets() {
 	// assign the actual weight to each target
 	for _, t := range r.Targets {
 		if t.FixedWeight > 0 {
-			t.Weight = t.FixedWeight * scale
+			t.Weight = fixed(t)
+			if normalize {
+				t.Weight = fixed(t) / sumFixed
+			}
 		} else {
 			t.Weight = dynamic
 		}
